@@ -178,6 +178,17 @@ func outcomeJ(o outcome, out string) J {
 	default:
 		j["class"] = "value"
 		j["v"] = valJ(o.v)
+		// the canonical rendering (val.String) of the result; a rendering that panics is a value-less outcome
+		func() {
+			defer func() {
+				if r := recover(); r != nil {
+					j["rtext"] = cps("<panic: " + clip(fmt.Sprint(r), 60) + ">")
+				}
+			}()
+			if o.v != nil {
+				j["rtext"] = cps(o.v.String())
+			}
+		}()
 	}
 	return j
 }
